@@ -6,7 +6,7 @@
 
 use super::c06::arg_for;
 use super::c13;
-use crate::common::canon::canon_tir;
+use crate::common::canon::canon_tx as canon_tir;
 use crate::common::pipeline::{compiler, PP};
 use crate::common::store::MemStore;
 use crate::engine::dbx::{self, Chooser};
